@@ -393,6 +393,15 @@ Proof. cbn. repeat split; try reflexivity. discriminate. Qed.
 Lemma source_key_tests_consistent_l : tests_consistent Gen.C04_consts.src_key_tests = true.
 Proof. reflexivity. Qed.
 
+(** ... and they honour every given key, falsy or not (fix cb57cf9). *)
+Lemma honoured_keys_applied_l : forall ts, keys_honoured ts = true ->
+  forall f, f_key ts f = f_key_given f /\ f_key_eq ts f = f_key_given f /\ attr_key ts f = f_key_given f.
+Proof.
+  intros [[| |] [| |] [| |]] Hh; cbn in Hh; try discriminate. intros f. repeat split.
+Qed.
+Lemma source_keys_honoured_l : keys_honoured Gen.C04_consts.src_key_tests = true.
+Proof. reflexivity. Qed.
+
 (** A falsy key callable that the attribute drops is dropped everywhere. *)
 Example falsy_key_dropped_everywhere :
   let ts := KT KTruthy KTruthy KTruthy in
